@@ -62,6 +62,17 @@ BLKW = {k: z3.Function(k + 'W', OpArr, z3.IntSort(), Word) for k in ('Row', 'Dia
 BLKS = {k + io: z3.Function(k + io + 'S', OpArr, z3.IntSort(), Struct) for k in ('Row', 'Diag', 'Col') for io in ('in', 'out')}
 
 
+scaled_by = z3.Function('scaled_by', z3.RealSort(), Op, Op)     # k * X for an operator of unknown class
+
+
+def scale_axioms():
+    o = z3.Const('o!sc', Op)
+    k = z3.Real('k!sc')
+    return [z3.ForAll([k, o], z3.And(denw(scaled_by(k, o)) == denw(o), denc(scaled_by(k, o)) == k * denc(o),
+                                     ins(scaled_by(k, o)) == ins(o), outs(scaled_by(k, o)) == outs(o)),
+                      patterns=[scaled_by(k, o)])]
+
+
 def reduce_axioms():
     o = z3.Const('o!red', Op)
     return [z3.ForAll([o], z3.And(denw(reduced(o)) == denw(o), denc(reduced(o)) == denc(o), ins(reduced(o)) == ins(o),
@@ -152,17 +163,50 @@ def op_seq(name, length=None):
     return s
 
 
-def arr_of(run, seq: SSeq):
-    arr, ax = seq.to_array(Op)
+def arr_of(run, seq: SSeq, interp=None):
+    arr, ax = seq.to_array(Op, unwrap=(lambda v: to_op(interp, v, run)) if interp is not None else None)
     for a in ax:
         run.assume(a)
     return arr
 
 
+def to_op(interp, v, run=None):
+    """the Op term standing for an operator value; instances of known classes are reified: a fresh constant with the
+    denotation their class invariant gives them (cached on the instance)"""
+    if is_z3(v) and v.sort() == Op:
+        return v
+    if isinstance(v, Obj):
+        t = getattr(v, '_op_term', None)
+        if t is None:
+            t = fresh_const('obj_' + v.cls.name, Op)
+            v._op_term = t
+            c, w, i_, o_ = den_of(interp, v)
+            (run or interp.run).assume(z3.And(denc(t) == c, denw(t) == w, ins(t) == i_, outs(t) == o_))
+        return t
+    raise Unsupported(f'not an operator: {v!r}')
+
+
+class ScalarArr(Value):
+    """jnp.asarray(k): a real value together with its shape (() for scalars; anything else is 'not a scalar')"""
+
+    def __init__(self, value, shape):
+        self.value, self.shape = value, shape
+
+    def py_getattr(self, interp, name):
+        if name == 'shape':
+            return self.shape
+        raise Unsupported(f'array attribute {name}')
+
+    def py_binop(self, interp, op, other, refl):
+        o = other.value if isinstance(other, ScalarArr) else other
+        a, b = (o, self.value) if refl else (self.value, o)
+        return ScalarArr(B.scalar_binop(interp, op, a, b), self.shape)
+
+
 class AlgTheory(Theory):
     """method calls / isinstance on Op terms, construction of the core classes, list-surgery lemma instances"""
 
-    def __init__(self, program):
+    def __init__(self, program, core_as_terms=True):
         super().__init__()
         self.P = program
         self.symobj_sorts = {'Op', 'Rule'}
@@ -171,14 +215,19 @@ class AlgTheory(Theory):
         self.isinstance_handlers.append(self.op_isinstance)
         self.cls_id = program.cls('IdentityOperator')
         self.cls_hom = program.cls('HomothetyOperator')
-        self.instantiate_overrides[self.cls_id.fullname] = self.mk_identity
-        self.instantiate_overrides[self.cls_hom.fullname] = self.mk_homothety
+        if core_as_terms:      # IdentityOperator(...) / HomothetyOperator(...) built by code under analysis become Op terms
+            self.instantiate_overrides[self.cls_id.fullname] = self.mk_identity
+            self.instantiate_overrides[self.cls_hom.fullname] = self.mk_homothety
         self.module_overrides[('furax._base.rules', 'BINARY_RULE_REGISTRY')] = lambda interp: self.registry()
         self.externals['jax.numpy.array'] = lambda interp, v, **kw: v
+        self.externals['jax.numpy.asarray'] = lambda interp, v, **kw: v if isinstance(v, ScalarArr) else ScalarArr(v, ())
         self.externals['jax.tree.map'] = self.tree_map
         self.externals['jax.tree.leaves'] = self.tree_leaves
         self.externals['jax.tree.all'] = self.tree_all
         self.equals_handlers.append(self.struct_eq)
+        self.identical_handlers.append(self.op_identical)
+        from props import C08
+        C08.patch_class_table(program)        # decorators' rewiring (square / symmetric / orthogonal), real bodies
 
     # ---- flat pytree containers of operators (list / tuple / dict collapse to their leaf sequence + a treedef token)
     def tree_leaves(self, interp, tree, is_leaf=None):
@@ -229,6 +278,17 @@ class AlgTheory(Theory):
         if S.oracle:
             m['oracle'] = S.oracle
         return m
+
+    def bind(self, interp):
+        from pyvc import values as V
+        V.OBJ_TO_TERM = lambda v: to_op(interp, v)
+
+    def op_identical(self, interp, a, b):
+        for x, y in ((a, b), (b, a)):
+            if is_z3(x) and x.sort() == Op and isinstance(y, Obj):
+                t = getattr(y, '_op_term', None)
+                return (x == t) if t is not None else False
+        return None
 
     # ---- structures are opaque terms with equality
     def struct_eq(self, interp, a, b):
@@ -306,6 +366,8 @@ class AlgTheory(Theory):
 
     def mk_homothety(self, interp, ci, args, kwargs):
         value, s = args
+        if isinstance(value, ScalarArr):
+            value = value.value
         o = fresh_const('homothety', Op)
         interp.run.assume(z3.And(isHom(o), z3.Not(isId(o)), denw(o) == EMPTY, denc(o) == to_z3(value), ins(o) == s,
                                  outs(o) == s, insize(o) == ssize(s), outsize(o) == ssize(s)))
@@ -321,6 +383,11 @@ class AlgTheory(Theory):
             interp.run.assume(z3.And(denw(p) == z3.Concat(denw(l), denw(r)), denc(p) == denc(l) * denc(r),
                                      ins(p) == ins(r), outs(p) == outs(l)))
             return p
+        if name in ('__rmul__', '__mul__') and len(args) == 1 and not (is_z3(args[0]) and args[0].sort() == Op):
+            # k * X for an operator of unknown class: callee contract of __rmul__ (proved in C02, scalar scenarios)
+            k = args[0].value if isinstance(args[0], ScalarArr) else args[0]
+            if isinstance(k, (int, float)) or (is_z3(k) and isinstance(k, z3.ArithRef)) or hasattr(k, 'numerator'):
+                return scaled_by(B.to_real(k), obj)        # axioms: scale_axioms()
         return B.NOT_IMPLEMENTED
 
     # ---- rules of unknown class (the rule contract)
@@ -413,9 +480,9 @@ class AlgTheory(Theory):
         if res is None:
             return
         try:
-            a0 = arr_of(run, cur)
-            an = arr_of(run, new)
-            ar = arr_of(run, res)
+            a0 = arr_of(run, cur, interp)
+            an = arr_of(run, new, interp)
+            ar = arr_of(run, res, interp)
         except Exception:
             return
         n0, nn, nr = to_z3(cur.length), to_z3(new.length), to_z3(res.length)
@@ -432,8 +499,11 @@ class AlgTheory(Theory):
     def after_list_concat(self, interp, res, a: SSeq, b: SSeq):
         run = interp.run
         try:
-            aa, ab, ar = arr_of(run, a), arr_of(run, b), arr_of(run, res.seq)
-        except Exception:
+            aa, ab, ar = arr_of(run, a, interp), arr_of(run, b, interp), arr_of(run, res.seq, interp)
+        except Exception as e:
+            if __import__('os').environ.get('VF_DEBUG'):
+                import traceback
+                traceback.print_exc()
             return
         na, nb = to_z3(a.length), to_z3(b.length)
         nr = na + nb
@@ -465,11 +535,11 @@ class AlgTheory(Theory):
 
     def after_list_append(self, interp, lst, cur: SSeq, x):
         run = interp.run
-        if not (is_z3(x) and x.sort() == Op):
+        if not ((is_z3(x) and x.sort() == Op) or isinstance(x, Obj)):
             return
         res = lst.seq
-        a0 = arr_of(run, cur)
-        ar = arr_of(run, res)
+        a0 = arr_of(run, cur, interp)
+        ar = arr_of(run, res, interp)
         n0 = to_z3(cur.length)
         for lem in (lem_split(ar, 0, n0, n0 + 1), lem_single(ar, n0), lem_cong(ar, 0, n0, a0, 0), lem_empty(ar, 0),
                     lem_empty(a0, 0)):
@@ -486,24 +556,43 @@ def den_of(interp, v):
         return denc(v), denw(v), ins(v), outs(v)
     if isinstance(v, Obj):
         name = v.cls.name
+        if getattr(v, 'plain', None) is not None:
+            t = v.plain
+            return denc(t), denw(t), ins(t), outs(t)
+        if name == 'IdentityOperator':
+            s_ = v.fields['_in_structure']
+            return z3.RealVal(1), EMPTY, s_, s_
+        if name == 'HomothetyOperator':
+            s_ = v.fields['_in_structure']
+            val = v.fields['value']
+            val = val.value if isinstance(val, ScalarArr) else val
+            return B.to_real(val), EMPTY, s_, s_
         if name == 'CompositionOperator':
             seq = B.as_seq(interp, v.fields['operands'])
-            arr = arr_of(run, seq)
+            arr = arr_of(run, seq, interp)
             n = to_z3(seq.length)
+            cn = concrete(seq.length)
+            if cn is not None and cn <= 8:         # fold lemmas unrolled for a literal list of factors
+                run.assume(lem_empty(arr, cn))
+                for i in range(cn):
+                    run.assume(lem_split(arr, i, i + 1, cn))
+                    run.assume(lem_single(arr, i))
             return Wc(arr, 0, n), Ww(arr, 0, n), ins(arr[n - 1]), outs(arr[0])
         if name == 'AdditionOperator':
             seq = B.as_seq(interp, v.fields['operands'])
-            arr = arr_of(run, seq)
+            arr = arr_of(run, seq, interp)
             n = to_z3(seq.length)
             return Sc(arr, n), Sw(arr, n), ins(arr[0]), outs(arr[0])
         if name in ('BlockRowOperator', 'BlockDiagonalOperator', 'BlockColumnOperator'):
             kind = {'BlockRowOperator': 'Row', 'BlockDiagonalOperator': 'Diag', 'BlockColumnOperator': 'Col'}[name]
             seq = B.as_seq(interp, v.fields['blocks'])
-            arr = arr_of(run, seq)
+            arr = arr_of(run, seq, interp)
             n = to_z3(seq.length)
             return z3.RealVal(1), BLKW[kind](arr, n), BLKS[kind + 'in'](arr, n), BLKS[kind + 'out'](arr, n)
-        if name in TRUE_INVERSES or name == 'DiagonalInverseOperator':
+        if name in TRUE_INVERSES or name in ('DiagonalInverseOperator', 'TransposeOperator'):
             c, w, i_, o_ = den_of(interp, v.fields['operator'])
+            if name == 'TransposeOperator':
+                return c, adjw(w), o_, i_
             if name == 'DiagonalInverseOperator':
                 # pseudo-inverse of a diagonal: equals the inverse only when no entry vanishes (not known here)
                 return z3.Real(fresh_name('pinvc')), pinvw(w), o_, i_
@@ -605,3 +694,24 @@ def container_callee_contracts(P):
            'furax._base.blocks.BlockDiagonalOperator.reduce': reduce_,
            'furax._base.core.AdditionOperator.reduce': reduce_}
     return out
+
+
+def plain_operator(S, clsname, name):
+    """an instance of `clsname` standing for an ordinary operator whose own semantics is irrelevant here: its
+    in_structure()/out_structure()/reduce() are answered by the ghost functions of a fresh Op term (callee contracts)"""
+    t = z3.Const(name, Op)
+    o = S.new(clsname)
+    o.plain = t
+    o._op_term = t
+    S.inputs[name] = t
+    return o
+
+
+def plain_call_hook(interp, fi, args, kwargs):
+    if args and isinstance(args[0], Obj) and getattr(args[0], 'plain', None) is not None:
+        t = args[0].plain
+        if fi.name == 'in_structure':
+            return (ins(t),)
+        if fi.name == 'out_structure':
+            return (outs(t),)
+    return None
